@@ -14,13 +14,14 @@ use crate::{
         input_json_extensions::InputJsonExtensions, input_plugin::InputPlugin, InputPluginError,
     },
 };
+use geo::Centroid;
 use geo_types::Coord;
 use routee_compass_core::{
     model::network::edge_id::EdgeId,
     model::unit::{as_f64::AsF64, Distance, DistanceUnit, BASE_DISTANCE_UNIT},
     util::{
         fs::{read_decoders, read_utils},
-        geo::geo_io_utils::read_linestring_text_file,
+        geo::{geo_io_utils::read_linestring_text_file, haversine},
     },
 };
 use rstar::RTree;
@@ -189,10 +190,7 @@ fn search(
     vehicle_parameters: &Option<VehicleParameters>,
 ) -> Result<Option<EdgeId>, InputPluginError> {
     let point = geo::Point(coord);
-    for (record, distance_meters) in rtree.nearest_neighbor_iter_with_distance_2(&point) {
-        if !within_tolerance(tolerance, &distance_meters) {
-            return Ok(None);
-        }
+    for (record, _distance_2) in rtree.nearest_neighbor_iter_with_distance_2(&point) {
         let valid_class = match (road_classes, road_class_lookup) {
             (Some(valid_classes), Some(lookup)) => {
                 let this_class = lookup.get(record.edge_id.0).ok_or_else(|| {
@@ -219,6 +217,21 @@ fn search(
             _ => true,
         };
         if valid_class && valid_truck {
+            // the tolerance applies to the nearest admissible edge, measured as the great-circle
+            // distance (in meters) to the point the rtree measures to, the edge centroid
+            if tolerance.is_some() {
+                let centroid = record.geometry.centroid().ok_or_else(|| {
+                    InputPluginError::InputPluginFailed(String::from(
+                        "empty linestring in geometry file",
+                    ))
+                })?;
+                let distance_meters = haversine::coord_distance_meters(&coord, &centroid.0)
+                    .map_err(InputPluginError::InputPluginFailed)?
+                    .as_f64() as f32;
+                if !within_tolerance(tolerance, &distance_meters) {
+                    return Ok(None);
+                }
+            }
             return Ok(Some(record.edge_id));
         }
     }
